@@ -18,6 +18,12 @@ CHECKS = {
  "C04": mc("Every labelled diagram of D(s,b,Phi) and of the rule-targeted neighbourhood families x every primitive rule x every argument tuple (all vertices, all ordered pairs incl. equal, boundaries, two absent ids) x both back ends; matcher, unchecked rule and checked rule are executed and judged: accept => no panic and reference tensor preserved; reject => checked rule returns false and the graph is ==-identical; matcher verdicts are compared across back ends.",
           "quick: D(2,2,Phi8), D(3,1,Phi4), D(2,2,Phi6) boundaries-first, targeted k=1; thorough: D(3,2,Phi8), D(3,2,Phi6) boundaries-first, D(2,3,Phi6), targeted k=3.",
           "exhaustive input-space enumeration (small-scope model checking) of real rule code against a reference evaluator", "3/C04"),
+ "C05": mc("E1: closed graph-like diagrams (all labelled graphs on <= 3-4 vertices x 6 phases, isomorphism classes on 5-6 vertices, cat-k stars k = 3..6 in hosts, 6/7-T families, closed gadget groups, basis-plugged circuits) x 8 drivers (BSS first/random, BSS+cats first/random, dynamic-T, Sherlock[1,1,1]/[10,10,10], spider cutting) x {no, Clifford, full} simplification x split off/on x {sequential, parallel}: Decomposer::scalar() must equal the reference value exactly. Per-step: for every diagram every Decomp some driver can emit (deterministic choices, every ordered selection of the real random_ts under the scripted RNG and its magic-5 prefixes, every single cut, every admissible cat in every leg rotation, dynamic-T pair cuts, spider cutting) through the one-step hook: term values sum to the original. Saved terms on open diagrams: Clifford and summing to the original map. E3: the random drivers with every announced draw enumerated. E4: decompose_parallel through the parallel-map seam under a cooperative scheduler owning all threads: deviation-bounded DFS over every schedule of whole logical tasks (all 5040 schedules of a 7-term BSS step), one outcome required; real rayon pools with 1..16 threads as a differential supplement.",
+          "quick: graphs <= 3 labelled / 4-5 classes, E3 unbounded on <= 4 T spiders, E4: 6 T spiders unbounded, 8 T spiders and a cat host at <= 2 deviations; thorough: <= 4 labelled, 5-6 classes, E4 up to 12 T spiders at <= 2-3 deviations (run caps reported). Not covered: rayon's real work-stealing schedule (only differentially), races inside one task segment, Sherlock's shuffle orders (its candidates are covered per step), std HashMap tie-breaking in dynamic-T (judged on exactness only).",
+          "exhaustive configuration sweep + choice-tree search (scripted RNG) + deviation-bounded schedule search (cooperative scheduler over the rayon seam) on the real decomposer", "3/C05"),
+ "C06": mc("`quizx sim` run in-process on every circuit of the families (SWAP, CCZ/Toffoli, idle qubits, non-Clifford+T phases): all 2^q bit strings and broadcast forms, all 4^q Pauli strings and broadcast forms, methods --cats / --bss, with and without -p, compared at 1e-9 with the reference state-vector simulation. Sampling: the sampler's Bernoulli draws are environment answers through the sampler hook; the whole outcome tree of -s 1 (and -s 2) is enumerated and at every node the probability handed to the draw must equal the conditional Born probability given the recorded prefix, lie in [0,1], and every printed sample must have non-zero probability. Malformed queries (enumerated list) must yield an error, never a panic or an answer.",
+          "quick: K(2,2,A_ct+swap), K(3,2,A3 with SWAP/CCZ/Toffoli), K(2,1,A_tol); thorough: K(2,3), K(3,3), K(2,2,A_tol). In-process CLI (the binary's main only maps Err to exit status 1).",
+          "exhaustive query enumeration + exhaustive outcome-tree search of the sampler (Bernoulli draws as environment answers) on the real CLI code", "3/C06"),
  "C07": mc("Part A: all ordered pairs of a Dyadic alphabet (boundary mantissas incl. full 64-bit / all-ones / overflowing products, boundary exponents, f64 constants) built through the public API: + - x judged against BigRational arithmetic on the raw parts (not flagged => exact and normalised; flagged => close), results re-compared against operands and zero (second-step ordering), cmp against the order of the reals, abs_diff_eq, f64 conversion wherever the value is a normal f64, f64 round trip. Part B: explicit-state BFS over Scalar4 expression histories (every public operation with every seed on either side), de-duplicated on raw parts, against the exact Z[omega][1/sqrt2] value of the expression over the stored constants: exactness of unflagged results, is_zero / is_one / exact_phase_and_sqrt2_pow, irrational constants flagged, complex_value() within 1e-12 of the represented value.",
           "quick: 217 dyadic values (47 k pairs), scalar histories to depth 2 from 23 seeds (~180 k states); thorough: 430 values, depth 3 from 31 seeds (state cap 6 M reported). Exponents to +-1100 / sqrt2 powers to +-2001, not the i32 extremes.",
           "exhaustive pair enumeration plus explicit-state BFS over expression histories of the real scalar types against a big-integer model", "3/C07"),
